@@ -322,7 +322,17 @@ Proof.
   intros H. apply andb_prop in H as [H1 H2]. apply N.eqb_eq in H1. rewrite (IH _ H2), H1. reflexivity.
 Qed.
 Lemma val_eqb_refl v : val_eqb v v = true.
-Proof. destruct v; cbn; [apply seqb_refl|apply Z.eqb_refl]. Qed.
+Proof. destruct v; cbn; [apply seqb_refl|apply Z.eqb_refl|apply eqb_reflx|apply Z.eqb_refl|apply seqb_refl]. Qed.
+Lemma val_eqb_iff a b : val_eqb a b = true <-> a = b.
+Proof.
+  split; [|intros ->; apply val_eqb_refl].
+  destruct a, b; cbn; try discriminate; intros H.
+  - f_equal. apply seqb_eq, H.
+  - f_equal. apply Z.eqb_eq, H.
+  - f_equal. apply eqb_prop, H.
+  - f_equal. apply Z.eqb_eq, H.
+  - f_equal. apply seqb_eq, H.
+Qed.
 Lemma attrs_eqb_refl a : attrs_eqb a a = true.
 Proof. induction a as [|[k v] a IH]; [reflexivity|]. cbn. rewrite seqb_refl, val_eqb_refl, IH. reflexivity. Qed.
 Lemma content_eqb_refl c : content_eqb c c = true.
@@ -480,7 +490,7 @@ Proof.
   - destruct (seqb k k2); [reflexivity|exact IH].
 Qed.
 Lemma lookup_merge_many k kvs : forall a,
-  lookup k (merge_many kvs a) = match last_val k kvs with Some v => Some (VStr v) | None => lookup k a end.
+  lookup k (merge_many kvs a) = match last_val k kvs with Some v => Some v | None => lookup k a end.
 Proof.
   induction kvs as [|[k' v] r IH]; intros a; [reflexivity|]. cbn [merge_many last_val]. rewrite IH.
   destruct (last_val k r); [reflexivity|]. destruct (seqb k k') eqn:E.
@@ -493,11 +503,11 @@ Lemma effect_after_exec o l st m :
   effect_seen l (content_of (res_msg (exec_leaf std_cfg o l st m))) = true.
 Proof.
   destruct l; cbn; try reflexivity; intros _;
-    try (rewrite lookup_insert; try apply seqb_refl; reflexivity);
+    try (rewrite lookup_insert; try apply val_eqb_refl; reflexivity);
     try (rewrite lookup_remove; reflexivity);
     try apply seqb_refl.
   - apply forallb_forall. intros [k v] _. cbn [fst]. rewrite lookup_merge_many.
-    destruct (last_val k kvs); [apply seqb_refl|reflexivity].
+    destruct (last_val k kvs); [apply val_eqb_refl|reflexivity].
   - change (tag ++ 58%N :: shown m) with (tag ++ [58%N] ++ shown m). rewrite app_assoc. apply prefixb_app.
   - change (tag ++ 91%N :: attr_val_str m k ++ [93%N]) with (tag ++ [91%N] ++ attr_val_str m k ++ [93%N]).
     rewrite app_assoc. apply prefixb_app.
@@ -661,6 +671,214 @@ Proof.
   rewrite (IH st1 H2). reflexivity.
 Qed.
 
+(* ------------------------------------------------------------ the last write to a key wins *)
+Lemma lookup_remove_other k k' a : seqb k k' = false -> lookup k (remove k' a) = lookup k a.
+Proof.
+  intros H. induction a as [|[k2 v2] a IH]; [reflexivity|]. cbn. destruct (seqb k' k2) eqn:E.
+  - apply seqb_eq in E. subst k2. rewrite H. exact IH.
+  - cbn. destruct (seqb k k2); [reflexivity|exact IH].
+Qed.
+
+Lemma leaf_sets_lookup o l st m k v :
+  leaf_sets l k = Some v -> lookup k (mattrs (res_msg (exec_leaf std_cfg o l st m))) = Some v.
+Proof.
+  destruct l; cbn; try discriminate; intros H;
+    try (match type of H with (if seqb ?a ?b then _ else _) = _ =>
+           destruct (seqb a b) eqn:E; [|discriminate]; injection H as ->; apply seqb_eq in E; subst; apply lookup_insert end).
+  rewrite lookup_merge_many, H. reflexivity.
+Qed.
+
+Lemma leaf_frame o l st m k :
+  writes_key l k = false -> lookup k (mattrs (res_msg (exec_leaf std_cfg o l st m))) = lookup k (mattrs m).
+Proof.
+  destruct l; cbn; try reflexivity; intros H;
+    try (apply lookup_insert_other, H); try (apply lookup_remove_other, H).
+  - rewrite lookup_merge_many. destruct (last_val k kvs); [discriminate|reflexivity].
+  - destruct (seqb (text m) _); reflexivity.
+Qed.
+
+Lemma may_write_unscoped k c : may_write k (HPipe false c) = may_write_l k c.
+Proof. induction c as [|h t IH]; [reflexivity|]. cbn [may_write_l]. rewrite <- IH. reflexivity. Qed.
+
+Lemma frame_both k :
+  (forall h st m, may_write k h = false -> lookup k (mattrs (res_msg (exec std_cfg h st m))) = lookup k (mattrs m))
+  /\ (forall hs st m, may_write_l k hs = false -> lookup k (mattrs (res_msg (run std_cfg hs st m))) = lookup k (mattrs m)).
+Proof.
+  pose (P := fun h => forall st m, may_write k h = false -> lookup k (mattrs (res_msg (exec std_cfg h st m))) = lookup k (mattrs m)).
+  pose (Q := fun hs => forall st m, may_write_l k hs = false -> lookup k (mattrs (res_msg (run std_cfg hs st m))) = lookup k (mattrs m)).
+  assert (Hleaf : forall o l, P (HLeaf o l)) by (intros o l st m H; rewrite exec_leaf_eq; apply leaf_frame, H).
+  assert (Hnull : P HNull) by (intros st m _; reflexivity).
+  assert (Hpipe : forall sc hs, Q hs -> P (HPipe sc hs)).
+  { intros sc hs Hq st m H. destruct sc.
+    - pose proof (std_scoped_restores hs st m) as R. cbn zeta in R. destruct R as (_ & -> & _). reflexivity.
+    - rewrite may_write_unscoped in H. specialize (Hq st m H). rewrite exec_pipe_std.
+      destruct (run std_cfg hs st m) as [[[st' m'] ok] evs]. exact Hq. }
+  assert (Hnil : Q []) by (intros st m _; reflexivity).
+  assert (Hcons : forall h t, P h -> Q t -> Q (h :: t)).
+  { intros h t Hp Hq st m H. cbn [may_write_l] in H. apply orb_false_elim in H as [H1 H2].
+    rewrite run_std_cons. specialize (Hp st m H1).
+    destruct (exec std_cfg h st m) as [[[st1 m1] kk] e1]. unfold res_msg in *. cbn [fst snd] in Hp.
+    destruct kk; [|exact Hp]. specialize (Hq st1 m1 H2).
+    destruct (run std_cfg t st1 m1) as [[[st2 m2] k2] e2]. cbn [fst snd] in *. congruence. }
+  split; [exact (handler_ind2 P Q Hleaf Hnull Hpipe Hnil Hcons)|exact (hlist_ind2 P Q Hleaf Hnull Hpipe Hnil Hcons)].
+Qed.
+
+(* after setter l wrote (type, value) v to k and everything up to the end of [mid] ran without a rejection, k
+   holds exactly v - whatever [pre] did to k and whatever the scoped children inside [mid] do *)
+Lemma std_last_write_wins pre o l mid st m st3 m3 e3 k v :
+  leaf_sets l k = Some v -> may_write_l k mid = false ->
+  run std_cfg (pre ++ HLeaf o l :: mid) st m = (st3, m3, true, e3) ->
+  lookup k (mattrs m3) = Some v.
+Proof.
+  intros Hs Hm. rewrite run_app. destruct (run std_cfg pre st m) as [[[st1 m1] k1] e1]. destruct k1; [|discriminate].
+  rewrite run_std_cons, exec_leaf_eq. pose proof (leaf_sets_lookup o l st1 m1 k v Hs) as Hl.
+  destruct (exec_leaf std_cfg o l st1 m1) as [[[st2 m2] k2] e2]. unfold res_msg in Hl. cbn [fst snd] in Hl.
+  destruct k2; [|discriminate].
+  pose proof (proj2 (frame_both k) mid st2 m2 Hm) as Hf.
+  destruct (run std_cfg mid st2 m2) as [[[sa ma] ka] ea]. unfold res_msg in Hf. cbn [fst snd] in Hf.
+  intros E. injection E as _ <- _ _. rewrite Hf. exact Hl.
+Qed.
+
+(* ... and that is what a sink placed there is handed: the delivered attribute map carries the LAST written
+   (type, value) of the key *)
+Lemma std_sink_sees_last_write pre o l mid o' rest st m st3 m3 e3 k v :
+  leaf_sets l k = Some v -> may_write_l k mid = false ->
+  run std_cfg (pre ++ HLeaf o l :: mid) st m = (st3, m3, true, e3) ->
+  run std_cfg ((pre ++ HLeaf o l :: mid) ++ HLeaf o' LSink :: rest) st m =
+    (let '(st4, m4, k4, e4) := run std_cfg rest st3 m3 in
+     (st4, m4, k4, e3 ++ EDeliver o' false (content_of m3) :: e4))
+  /\ lookup k (c_attrs (content_of m3)) = Some v.
+Proof.
+  intros Hs Hm E. split; [apply std_sink_gets_latest, E|]. exact (std_last_write_wins _ _ _ _ _ _ _ _ _ _ _ Hs Hm E).
+Qed.
+
+(* ------------------------------------------------------------ structural edits *)
+Lemma op_append_nonnull h l : h <> HNull -> apply_op (OAppend h) l = l ++ [h].
+Proof. destruct h; [reflexivity|congruence|reflexivity]. Qed.
+Lemma op_append_null l : apply_op (OAppend HNull) l = l.
+Proof. reflexivity. Qed.
+Lemma op_remove_spec o l h : In h (apply_op (ORemove o) l) <-> In h l /\ has_oid o h = false.
+Proof. cbn. rewrite filter_In, negb_true_iff. reflexivity. Qed.
+Lemma op_clear_class_spec k l h : In h (apply_op (OClearClass k) l) <-> In h l /\ in_cls [k] h = false.
+Proof. cbn. unfold clear_class. rewrite filter_In, negb_true_iff. reflexivity. Qed.
+Lemma insert_at_split n h l : exists a b, l = a ++ b /\ insert_at n h l = a ++ h :: b.
+Proof. exists (firstn n l), (skipn n l). split; [symmetry; apply firstn_skipn|reflexivity]. Qed.
+(* a typed call inserts exactly its one handler and keeps the relative order of all others
+   (setFormatter: of all others but the formatters, which it removes first) *)
+Lemma op_sorted_inserts_one h l :
+  class_of h <> None ->
+  exists a b, (match class_of h with Some CFmt => clear_class CFmt l | _ => l end) = a ++ b
+              /\ apply_op (OSorted h) l = a ++ h :: b.
+Proof.
+  intros Hn. cbn [apply_op]. destruct (class_of h) as [[| | | | |]|]; try congruence;
+    try (apply insert_at_split); (exists l, []; split; [symmetry; apply app_nil_r|reflexivity]).
+Qed.
+
+(* the appended handler runs last, on what the old list left, unless the old list rejected *)
+Lemma std_append_runs_last h l st m :
+  h <> HNull ->
+  run std_cfg (apply_op (OAppend h) l) st m =
+    let '(st1, m1, k, e1) := run std_cfg l st m in
+    if k then let '(st2, m2, k2, e2) := run std_cfg [h] st1 m1 in (st2, m2, k2, e1 ++ e2)
+    else (st1, m1, false, e1).
+Proof. intros Hn. rewrite (op_append_nonnull h l Hn). apply run_app. Qed.
+
+Lemma map_nth_other i f : forall l j, j <> i -> nth_error (map_nth i f l) j = nth_error l j.
+Proof.
+  induction i as [|i IH]; intros [|x l] [|j] H; cbn; try reflexivity; try congruence.
+  apply IH. congruence.
+Qed.
+Lemma map_nth_same i f : forall l, nth_error (map_nth i f l) i = option_map f (nth_error l i).
+Proof. induction i as [|i IH]; intros [|x l]; cbn; try reflexivity. apply IH. Qed.
+Lemma map_nth_length i f : forall l, length (map_nth i f l) = length l.
+Proof. induction i as [|i IH]; intros [|x l]; cbn; try reflexivity. rewrite IH. reflexivity. Qed.
+
+(* an edit addressed inside entry i changes nothing but the handler list of that child (its scopedness,
+   its position and every other entry of every enclosing list stay) *)
+Lemma edit_at_root f hs : edit_at [] f hs = f hs.
+Proof. reflexivity. Qed.
+Lemma edit_at_child i p f hs sc c :
+  nth_error hs i = Some (HPipe sc c) -> nth_error (edit_at (i :: p) f hs) i = Some (HPipe sc (edit_at p f c)).
+Proof. intros H. cbn [edit_at]. rewrite map_nth_same, H. reflexivity. Qed.
+Lemma edit_at_elsewhere i p f hs j : j <> i -> nth_error (edit_at (i :: p) f hs) j = nth_error hs j.
+Proof. intros H. cbn [edit_at]. apply map_nth_other, H. Qed.
+Lemma edit_at_length i p f hs : length (edit_at (i :: p) f hs) = length hs.
+Proof. cbn [edit_at]. apply map_nth_length. Qed.
+
+(* ------------------------------------------------------------ histories: messages and edits interleaved *)
+Lemma run_steps_app c a : forall root st b,
+  run_steps c root st (a ++ b) =
+    let '(st1, root1, o1) := run_steps c root st a in
+    let '(st2, root2, o2) := run_steps c root1 st1 b in (st2, root2, o1 ++ o2).
+Proof.
+  induction a as [|[m|e] a IH]; intros root st b; cbn [app run_steps].
+  - destruct (run_steps c root st b) as [[? ?] ?]. reflexivity.
+  - destruct (run c root st m) as [[[st1 m1] k] ev]. rewrite IH.
+    destruct (run_steps c root st1 a) as [[st2 r2] o1]. destruct (run_steps c r2 st2 b) as [[st3 r3] o2]. reflexivity.
+  - apply IH.
+Qed.
+
+Lemma steps_tree c steps : forall root st, snd (fst (run_steps c root st steps)) = tree_after root steps.
+Proof.
+  induction steps as [|[m|e] r IH]; intros root st; cbn [run_steps tree_after fold_left]; [reflexivity| |apply IH].
+  destruct (run c root st m) as [[[st1 m1] k] ev]. specialize (IH root st1).
+  destruct (run_steps c root st1 r) as [[st2 r2] o]. exact IH.
+Qed.
+
+Lemma steps_out_length c steps : forall root st, length (snd (run_steps c root st steps)) = count_msgs steps.
+Proof.
+  induction steps as [|[m|e] r IH]; intros root st; cbn [run_steps count_msgs]; [reflexivity| |apply IH].
+  destruct (run c root st m) as [[[st1 m1] k] ev]. specialize (IH root st1).
+  destruct (run_steps c root st1 r) as [[st2 r2] o]. cbn in *. rewrite IH. reflexivity.
+Qed.
+
+(* without edits a history is the message sequence of [run_seq] *)
+Lemma run_steps_msgs c root ms : forall st,
+  fst (fst (run_steps c root st (map SMsg ms))) = fst (run_seq c root st ms)
+  /\ snd (fst (run_steps c root st (map SMsg ms))) = root
+  /\ map (fun o => (o_events o, o_final o)) (snd (run_steps c root st (map SMsg ms))) = snd (run_seq c root st ms).
+Proof.
+  induction ms as [|m ms IH]; intros st; cbn [map run_steps run_seq]; [repeat split|].
+  destruct (run c root st m) as [[[st1 m1] k] ev]. specialize (IH st1).
+  destruct (run_steps c root st1 (map SMsg ms)) as [[st2 r2] o]. destruct (run_seq c root st1 ms) as [st3 o3].
+  cbn in *. destruct IH as (-> & -> & ->). repeat split.
+Qed.
+
+(* THE law of edits: the message after the prefix [pre] is evaluated by [run] on the tree with exactly the
+   edits of [pre] applied, from the handler states the messages of [pre] left *)
+Lemma run_steps_nth c root pre m post st :
+  let st_pre := fst (fst (run_steps c root st pre)) in
+  let tree := tree_after root pre in
+  nth_error (snd (run_steps c root st (pre ++ SMsg m :: post))) (count_msgs pre)
+  = Some {| o_tree := tree; o_msg := m; o_events := res_events (run c tree st_pre m);
+            o_final := content_of (res_msg (run c tree st_pre m)) |}.
+Proof.
+  cbn zeta. rewrite run_steps_app. pose proof (steps_tree c pre root st) as Ht.
+  pose proof (steps_out_length c pre root st) as Hl.
+  destruct (run_steps c root st pre) as [[st1 r1] o1]. cbn [fst snd] in *. subst r1. cbn [run_steps].
+  destruct (run c (tree_after root pre) st1 m) as [[[st2 m2] k2] e2].
+  destruct (run_steps c (tree_after root pre) st2 post) as [[st3 r3] o3].
+  cbn [snd]. rewrite nth_error_app2 by lia. rewrite Hl, Nat.sub_diag. reflexivity.
+Qed.
+
+(* every per-message law that holds for every tree and store holds for every message of every history,
+   relative to the tree of its moment *)
+Lemma run_steps_lifts c (R : list handler -> msg -> list event -> content -> Prop) :
+  (forall tree st m, R tree m (res_events (run c tree st m)) (content_of (res_msg (run c tree st m)))) ->
+  forall steps root st,
+    Forall (fun o => R (o_tree o) (o_msg o) (o_events o) (o_final o)) (snd (run_steps c root st steps)).
+Proof.
+  intros H. induction steps as [|[m|e] r IH]; intros root st; cbn [run_steps]; [constructor| |apply IH].
+  specialize (H root st m). destruct (run c root st m) as [[[st1 m1] k] ev]. specialize (IH root st1).
+  destruct (run_steps c root st1 r) as [[st2 r2] o]. cbn in *. constructor; assumption.
+Qed.
+
+Lemma which_zero hs m evs : prop_c01_b hs m evs = true -> prop_c01_which hs m evs = 0.
+Proof.
+  unfold prop_c01_b, prop_c01_which. intros H.
+  repeat (apply andb_prop in H; destruct H as [H ?]). rewrite H, H0, H1, H2. reflexivity.
+Qed.
+
 (* ------------------------------------------------------------ the same, for every good configuration *)
 Section Good.
 Variable c : pipe_cfg.
@@ -740,5 +958,49 @@ Lemma seq_text_type root ms st :
 Proof.
   apply (run_seq_lifts c root (fun m _ fin => c_raw fin = text m)). intros st' m.
   exact (proj1 (text_type_never_change root st' m)).
+Qed.
+Lemma last_write_wins pre o l mid st m st3 m3 e3 k v :
+  leaf_sets l k = Some v -> may_write_l k mid = false ->
+  run c (pre ++ HLeaf o l :: mid) st m = (st3, m3, true, e3) ->
+  lookup k (mattrs m3) = Some v.
+Proof. rewrite (good_is_std c G). apply std_last_write_wins. Qed.
+
+Lemma sink_sees_last_write pre o l mid o' rest st m st3 m3 e3 k v :
+  leaf_sets l k = Some v -> may_write_l k mid = false ->
+  run c (pre ++ HLeaf o l :: mid) st m = (st3, m3, true, e3) ->
+  run c ((pre ++ HLeaf o l :: mid) ++ HLeaf o' LSink :: rest) st m =
+    (let '(st4, m4, k4, e4) := run c rest st3 m3 in
+     (st4, m4, k4, e3 ++ EDeliver o' false (content_of m3) :: e4))
+  /\ lookup k (c_attrs (content_of m3)) = Some v.
+Proof. rewrite (good_is_std c G). apply std_sink_sees_last_write. Qed.
+
+Lemma untouched_key_kept k hs st m :
+  may_write_l k hs = false -> lookup k (mattrs (res_msg (run c hs st m))) = lookup k (mattrs m).
+Proof. rewrite (good_is_std c G). apply (proj2 (frame_both k)). Qed.
+
+Lemma append_runs_last h l st m :
+  h <> HNull ->
+  run c (apply_op (OAppend h) l) st m =
+    let '(st1, m1, k, e1) := run c l st m in
+    if k then let '(st2, m2, k2, e2) := run c [h] st1 m1 in (st2, m2, k2, e1 ++ e2)
+    else (st1, m1, false, e1).
+Proof. rewrite (good_is_std c G). apply std_append_runs_last. Qed.
+
+Lemma steps_in_order steps root st :
+  Forall (fun o => Trav (o_tree o) (o_events o)) (snd (run_steps c root st steps)).
+Proof. apply (run_steps_lifts c (fun t _ evs _ => Trav t evs)). intros. apply in_order. Qed.
+
+Lemma steps_oracle_holds steps root st :
+  Forall (fun o => prop_c01_b (o_tree o) (o_msg o) (o_events o) = true) (snd (run_steps c root st steps)).
+Proof. apply (run_steps_lifts c (fun t m evs _ => prop_c01_b t m evs = true)). intros. apply oracle_holds. Qed.
+
+(* the history oracle of the check accepts the model's own events for every message *)
+Lemma steps_which_zero steps : forall root st,
+  which_steps root steps (map o_events (snd (run_steps c root st steps))) = repeat 0 (count_msgs steps).
+Proof.
+  induction steps as [|[m|e] r IH]; intros root st; cbn [run_steps which_steps count_msgs]; [reflexivity| |apply IH].
+  pose proof (oracle_holds root st m) as Ho. destruct (run c root st m) as [[[st1 m1] k] ev]. specialize (IH root st1).
+  destruct (run_steps c root st1 r) as [[st2 r2] o]. unfold res_events in Ho. cbn in *.
+  rewrite (which_zero _ _ _ Ho), IH. reflexivity.
 Qed.
 End Good.
